@@ -41,7 +41,9 @@ type c19Track struct {
 	str1      string
 }
 
-var c19Langs = []string{"und", "eng", "swe", "en", "sv", "en-US", "zh-Hant-TW", "de-CH-1996", "fr", "nob"}
+var c19Langs = []string{"und", "eng", "swe", "en", "sv", "en-US", "zh-Hant-TW", "de-CH-1996", "fr", "nob",
+	// long but well-formed BCP-47 tags (RFC 5646 sets no maximum length)
+	"de-Latn-DE-1996-u-co-phonebk-x-priv1", "sl-Latn-IT-rozaj-nedis-1994-u-co-standard-nu-latn-x-private1-private2"}
 var c19Scales = []uint32{90000, 48000, 1000, 180000, 1, 44100, 0xffffffff, 12288}
 
 // independent expectations
@@ -150,6 +152,11 @@ func c19Build(r *sim.Run) (*mp4.InitSegment, []c19Track, error) {
 		default:
 			tr.media, tr.desc = []string{"stpp", "subtitle"}[t.Draw(2)], "stpp"
 			tr.str1 = []string{"", "http://www.w3.org/ns/ttml", "urn:x a b"}[t.Draw(3)]
+		}
+		if i == n-1 && t.Chance(60) {
+			// the history stops right after AddEmptyTrack: the last track has no codec descriptor (empty stsd) yet
+			tr.desc = "none"
+			r.Probe("track-without-descriptor")
 		}
 		r.Event("AddEmptyTrack", kind, len(tr.lang))
 		r.Logf("AddEmptyTrack(%d, %q, %q) + %s(includePS=%v obj=%d freq=%d %q)", tr.timescale, tr.media, tr.lang, tr.desc, tr.includePS, tr.aacObj, tr.aacFreq, tr.str1)
@@ -284,6 +291,12 @@ func c19CheckBytes(r *sim.Run, data []byte, model []c19Track) {
 		}
 		// sample entry
 		stsd := minf.Path("stbl", "stsd")
+		if tr.desc == "none" {
+			if stsd == nil || len(stsd.Children) != 0 || binary.BigEndian.Uint32(data[stsd.Payload()+4:]) != 0 {
+				r.Violate("c19-sample-entry", "%s: no descriptor was set but stsd is not empty", who)
+			}
+			continue
+		}
 		if stsd == nil || len(stsd.Children) != 1 {
 			r.Violate("c19-sample-entry", "%s: stsd does not hold exactly one sample entry", who)
 			continue
